@@ -21,6 +21,11 @@ func (p *Path) vpIntrinsic(caller *frame, fn *ssa.Function, name string, args []
 		}
 		return p.fresh(p.strArg(args[0], "name"), smt.BV64, "u64")
 	case "vp_U32":
+		if p.intMode {
+			v := p.fresh(p.strArg(args[0], "name"), smt.IntS, "int")
+			p.assumeOrStop(smt.And(smt.ILe(smt.ConstIntU(0), v), smt.ILt(v, pow2(32))))
+			return v
+		}
 		return p.fresh(p.strArg(args[0], "name"), smt.BV32, "u32")
 	case "vp_U16":
 		return p.fresh(p.strArg(args[0], "name"), smt.BV(16), "u16")
